@@ -18,6 +18,15 @@ so that equivalent spellings of the same operation are one form before any rule 
   not f(x).all()                            ->  (~f(x)).any()
   i = 0; while i < N: BODY; i += 1 [else]   ->  for i in range(N): BODY [else]      (normalize_loops; conditions in its docstring)
   x = A if c else B;  return A if c else B  ->  if c: x = A else: x = B;  if c: return A else: return B
+  np.subtract(a, b), pt.ge(a, b), pt.neg(a), np.add.reduce(x, axis=0)   ->  a - b, a >= b, -a, x.sum(axis=0)
+  X[slice(a, b)]                             ->  X[a:b]
+  {..} | {..}                                ->  {**{..}, **{..}}
+  list([f(x) for x in L])                    ->  [f(x) for x in L]
+  with contextlib.closing(E) as f            ->  with E as f
+  with ExitStack() as S: S.callback(F, a); BODY   ->  try: BODY finally: F(a)
+  x: T = v                                   ->  x = v        (bare `x: T` declarations disappear)
+  match S: case Class(): A  case 1: B  case None: C  case _: D   ->  if isinstance(S, Class): A elif S == 1: B elif S is None: C else: D
+  if (n := E) > 3: ...                       ->  n = E; if n > 3: ...   (only when E is the first non-trivial thing the statement evaluates)
   x if not c else y                        ->  y if c else x   (also for `is not None`, `!=`, `not in` tests)
 """
 import ast
@@ -27,6 +36,31 @@ ALIAS = {"amax": "max", "amin": "min"}
 NP = {"np", "numpy"}
 _NEG = {ast.Is: ast.IsNot, ast.IsNot: ast.Is, ast.In: ast.NotIn, ast.NotIn: ast.In, ast.Eq: ast.NotEq, ast.NotEq: ast.Eq}
 _NEGATIVE_OPS = (ast.IsNot, ast.NotIn, ast.NotEq)
+
+
+_BINOPS = {}
+_CMPOPS = {}
+_UNOPS = {}
+for _root in ("np", "numpy", "pt", "tt", "pm.math"):
+    for _nm, _op in (("add", ast.Add), ("subtract", ast.Sub), ("sub", ast.Sub), ("multiply", ast.Mult), ("mul", ast.Mult), ("divide", ast.Div), ("true_divide", ast.Div),
+                     ("true_div", ast.Div), ("power", ast.Pow), ("pow", ast.Pow), ("mod", ast.Mod), ("remainder", ast.Mod), ("bitwise_and", ast.BitAnd), ("and_", ast.BitAnd),
+                     ("bitwise_or", ast.BitOr), ("or_", ast.BitOr), ("logical_and", ast.BitAnd), ("logical_or", ast.BitOr)):
+        _BINOPS["%s.%s" % (_root, _nm)] = _op
+    for _nm, _op in (("greater", ast.Gt), ("gt", ast.Gt), ("greater_equal", ast.GtE), ("ge", ast.GtE), ("less", ast.Lt), ("lt", ast.Lt), ("less_equal", ast.LtE), ("le", ast.LtE)):
+        _CMPOPS["%s.%s" % (_root, _nm)] = _op
+    for _nm, _op in (("negative", ast.USub), ("neg", ast.USub), ("invert", ast.Invert), ("logical_not", ast.Invert), ("bitwise_not", ast.Invert)):
+        _UNOPS["%s.%s" % (_root, _nm)] = _op
+
+
+def _dotted(node):
+    parts = []
+    while isinstance(node, ast.Attribute):
+        parts.append(node.attr)
+        node = node.value
+    if isinstance(node, ast.Name):
+        parts.append(node.id)
+        return ".".join(reversed(parts))
+    return None
 
 
 def _is_np(node):
@@ -66,6 +100,20 @@ class _N(ast.NodeTransformer):
     def visit_Call(self, n):
         self.generic_visit(n)
         f = n.func
+        # operators spelled as the ufunc / tensor function they dispatch to
+        d_ = _dotted(f)
+        if d_ in _BINOPS and len(n.args) == 2 and not n.keywords:
+            return ast.copy_location(ast.BinOp(left=n.args[0], op=_BINOPS[d_](), right=n.args[1]), n)
+        if d_ in _CMPOPS and len(n.args) == 2 and not n.keywords:
+            return ast.copy_location(ast.Compare(left=n.args[0], ops=[_CMPOPS[d_]()], comparators=[n.args[1]]), n)
+        if d_ in _UNOPS and len(n.args) == 1 and not n.keywords:
+            return ast.copy_location(ast.UnaryOp(op=_UNOPS[d_](), operand=n.args[0]), n)
+        if d_ in ("np.add.reduce", "numpy.add.reduce") and n.args:
+            m_ = ast.Attribute(value=n.args[0], attr="sum", ctx=ast.Load())
+            return self.visit_Call(ast.copy_location(ast.Call(func=ast.copy_location(m_, n), args=n.args[1:], keywords=n.keywords), n))
+        # list([..comprehension / display..]) -> the list itself
+        if isinstance(f, ast.Name) and f.id == "list" and len(n.args) == 1 and not n.keywords and isinstance(n.args[0], (ast.List, ast.ListComp)):
+            return n.args[0]
         # list(X.keys()) -> list(X)   (iterating a mapping iterates its keys; also tuple / sorted / set / len)
         if isinstance(f, ast.Name) and f.id in ("list", "tuple", "sorted", "set", "len") and len(n.args) == 1 and not n.keywords:
             a0 = n.args[0]
@@ -111,8 +159,37 @@ class _N(ast.NodeTransformer):
             return ast.copy_location(ast.Call(func=ast.Name(id="len", ctx=ast.Load()), args=[v], keywords=[]), n)
         return n
 
+    def visit_BinOp(self, n):
+        self.generic_visit(n)
+        # {..} | {..}  ->  {**{..}, **{..}}   (dict union; at least one operand is a dict display / comprehension, so both are mappings)
+        if isinstance(n.op, ast.BitOr) and (isinstance(n.left, (ast.Dict, ast.DictComp)) or isinstance(n.right, (ast.Dict, ast.DictComp))):
+            keys, vals = [], []
+            for side in (n.left, n.right):
+                if isinstance(side, ast.Dict):
+                    keys += side.keys
+                    vals += side.values
+                else:
+                    keys.append(None)
+                    vals.append(side)
+            return ast.copy_location(ast.Dict(keys=keys, values=vals), n)
+        return n
+
     def visit_Subscript(self, n):
         self.generic_visit(n)
+        # X[slice(a, b)] -> X[a:b]
+        sl = n.slice
+        if isinstance(sl, ast.Call) and isinstance(sl.func, ast.Name) and sl.func.id == "slice" and 1 <= len(sl.args) <= 3 and not sl.keywords \
+                and not any(isinstance(a, ast.Starred) for a in sl.args):
+            a = list(sl.args)
+
+            def nn(x):
+                return None if isinstance(x, ast.Constant) and x.value is None else x
+            if len(a) == 1:
+                n.slice = ast.Slice(lower=None, upper=nn(a[0]), step=None)
+            elif len(a) == 2:
+                n.slice = ast.Slice(lower=nn(a[0]), upper=nn(a[1]), step=None)
+            else:
+                n.slice = ast.Slice(lower=nn(a[0]), upper=nn(a[1]), step=nn(a[2]))
         # np.nonzero(m)[0] -> np.where(m)[0]
         v = n.value
         if isinstance(v, ast.Call) and isinstance(v.func, ast.Attribute) and _is_np(v.func.value) and v.func.attr == "nonzero" and len(v.args) == 1:
@@ -176,6 +253,46 @@ class _N(ast.NodeTransformer):
             return ast.copy_location(ast.If(test=v.test, body=[self.visit_Assign(a)] if isinstance(v.body, ast.IfExp) else [a],
                                             orelse=[self.visit_Assign(b)] if isinstance(v.orelse, ast.IfExp) else [b]), n)
         return n
+
+    def visit_AnnAssign(self, n):
+        self.generic_visit(n)
+        # x: T = v -> x = v ;  a bare declaration `x: T` disappears (annotations of locals are never evaluated)
+        if n.value is None:
+            return ast.copy_location(ast.Pass(), n) if isinstance(n.target, ast.Name) else n
+        return ast.copy_location(ast.Assign(targets=[n.target], value=n.value), n)
+
+    def visit_With(self, n):
+        self.generic_visit(n)
+        # with contextlib.closing(E) as f  ->  with E as f     (both close E on every exit)
+        for it in n.items:
+            ce = it.context_expr
+            if isinstance(ce, ast.Call) and _dotted(ce.func) in ("contextlib.closing", "closing") and len(ce.args) == 1 and not ce.keywords:
+                it.context_expr = ce.args[0]
+        # with contextlib.ExitStack() as S: S.callback(F, *a); BODY   ->   try: BODY  finally: F(*a)
+        if len(n.items) == 1 and isinstance(n.items[0].context_expr, ast.Call) and _dotted(n.items[0].context_expr.func) in ("contextlib.ExitStack", "ExitStack") \
+                and not n.items[0].context_expr.args and isinstance(n.items[0].optional_vars, ast.Name):
+            S = n.items[0].optional_vars.id
+            cbs = []
+            k = 0
+            while k < len(n.body):
+                st = n.body[k]
+                if isinstance(st, ast.Expr) and isinstance(st.value, ast.Call) and isinstance(st.value.func, ast.Attribute) and st.value.func.attr == "callback" \
+                        and isinstance(st.value.func.value, ast.Name) and st.value.func.value.id == S and st.value.args:
+                    cbs.append(st.value)
+                    k += 1
+                else:
+                    break
+            rest = n.body[k:]
+            used = any(isinstance(x, ast.Name) and x.id == S for b in rest for x in ast.walk(b))
+            if cbs and rest and not used:
+                fin = [ast.Expr(value=ast.Call(func=c.args[0], args=c.args[1:], keywords=c.keywords)) for c in reversed(cbs)]
+                return ast.copy_location(ast.Try(body=rest, handlers=[], orelse=[], finalbody=fin), n)
+        return n
+
+    def visit_Match(self, n):
+        self.generic_visit(n)
+        r = _match_to_if(n)
+        return r if r is not None else n
 
     def visit_Return(self, n):
         self.generic_visit(n)
@@ -244,6 +361,171 @@ class _N(ast.NodeTransformer):
         if flip:
             return ast.copy_location(ast.IfExp(test=t, body=n.orelse, orelse=n.body), n)
         return n
+
+
+def _pattern_test(subject, pat):
+    """boolean test equivalent to a capture-free pattern, or None: Class() -> isinstance, literal -> ==, None/True/False -> is, _ -> True, p | q -> or"""
+    import copy
+    subj = copy.deepcopy(subject)
+    if isinstance(pat, ast.MatchAs) and pat.pattern is None and pat.name is None:
+        return ast.Constant(value=True)
+    if isinstance(pat, ast.MatchClass) and not pat.patterns and not pat.kwd_patterns:
+        return ast.Call(func=ast.Name(id="isinstance", ctx=ast.Load()), args=[subj, pat.cls], keywords=[])
+    if isinstance(pat, ast.MatchSingleton):
+        return ast.Compare(left=subj, ops=[ast.Is()], comparators=[ast.Constant(value=pat.value)])
+    if isinstance(pat, ast.MatchValue) and isinstance(pat.value, (ast.Constant, ast.Attribute, ast.UnaryOp)):
+        return ast.Compare(left=subj, ops=[ast.Eq()], comparators=[pat.value])
+    if isinstance(pat, ast.MatchSequence) and isinstance(subject, ast.Tuple) and len(pat.patterns) == len(subject.elts) \
+            and not any(isinstance(q, ast.MatchStar) for q in pat.patterns):
+        parts = []
+        for e_, q in zip(subject.elts, pat.patterns):
+            t_ = _pattern_test(e_, q)
+            if t_ is None:
+                return None
+            if not (isinstance(t_, ast.Constant) and t_.value is True):
+                parts.append(t_)
+        if not parts:
+            return ast.Constant(value=True)
+        return parts[0] if len(parts) == 1 else ast.BoolOp(op=ast.And(), values=parts)
+    if isinstance(pat, ast.MatchOr):
+        parts = [_pattern_test(subject, q) for q in pat.patterns]
+        if any(q is None for q in parts):
+            return None
+        return ast.BoolOp(op=ast.Or(), values=parts)
+    return None
+
+
+def _match_to_if(n):
+    """match S: case P1: A; case P2 if g: B; case _: C   ->   if test(P1): A elif test(P2) and g: B else: C
+    for a simple subject (name / attribute chain) and capture-free patterns; `case Class() as x` binds x = S first."""
+    simple = (ast.Name, ast.Attribute)
+    if not (isinstance(n.subject, simple) or (isinstance(n.subject, ast.Tuple) and all(isinstance(e_, simple) for e_ in n.subject.elts))):
+        return None
+    import copy
+    branches = []
+    for c in n.cases:
+        pat = c.pattern
+        pre = []
+        if isinstance(pat, ast.MatchAs) and pat.pattern is not None and pat.name is not None:
+            pre = [ast.Assign(targets=[ast.Name(id=pat.name, ctx=ast.Store())], value=copy.deepcopy(n.subject), lineno=n.lineno, col_offset=0)]
+            pat = pat.pattern
+        t = _pattern_test(n.subject, pat)
+        if t is None:
+            return None
+        if c.guard is not None:
+            if pre:
+                return None
+            t = c.guard if isinstance(t, ast.Constant) and t.value is True else ast.BoolOp(op=ast.And(), values=[t, c.guard])
+        branches.append((t, pre + c.body))
+    out = None
+    for t, body in reversed(branches):
+        if isinstance(t, ast.Constant) and t.value is True:
+            out = body
+            continue
+        node = ast.If(test=t, body=body, orelse=(out if isinstance(out, list) else ([out] if out is not None else [])))
+        out = node
+    if isinstance(out, list):
+        return out if out else None
+    return ast.copy_location(out, n) if out is not None else None
+
+
+def _hoist_walrus(stmts):
+    """`if (n := E) > 3: ...` / `x = f(n := E)`  ->  `n = E` followed by the statement using n, when the named expression is the first thing the
+    statement evaluates that is not a plain name / constant / attribute (so evaluation order is unchanged).  While headers and comprehensions are left alone."""
+    out = []
+    for s in stmts:
+        for f in ("body", "orelse", "finalbody"):
+            sub = getattr(s, f, None)
+            if isinstance(sub, list) and sub and isinstance(sub[0], ast.stmt) and not isinstance(s, (ast.FunctionDef, ast.AsyncFunctionDef, ast.ClassDef)):
+                setattr(s, f, _hoist_walrus(sub))
+        if isinstance(s, ast.Try):
+            for h in s.handlers:
+                h.body = _hoist_walrus(h.body)
+        if isinstance(s, (ast.FunctionDef, ast.AsyncFunctionDef)):
+            s.body = _hoist_walrus(s.body)
+        if isinstance(s, ast.ClassDef):
+            s.body = _hoist_walrus(s.body)
+        head = s.test if isinstance(s, ast.If) else s.value if isinstance(s, (ast.Assign, ast.Expr, ast.Return, ast.AugAssign)) and getattr(s, "value", None) is not None else None
+        pre = []
+        while head is not None:
+            w = _first_walrus(head)
+            if w is None:
+                break
+            pre.append(ast.copy_location(ast.Assign(targets=[ast.Name(id=w.target.id, ctx=ast.Store())], value=w.value), s))
+            new = _replace_node(head, w, ast.copy_location(ast.Name(id=w.target.id, ctx=ast.Load()), w))
+            if isinstance(s, ast.If):
+                s.test = new
+            else:
+                s.value = new
+            head = new
+        out.extend(pre)
+        out.append(s)
+    return out
+
+
+def _replace_node(root, old, new):
+    if root is old:
+        return new
+
+    class T(ast.NodeTransformer):
+        def generic_visit(self, node):
+            for field, v in ast.iter_fields(node):
+                if isinstance(v, list):
+                    setattr(node, field, [new if x is old else (self.visit(x) if isinstance(x, ast.AST) else x) for x in v])
+                elif isinstance(v, ast.AST):
+                    setattr(node, field, new if v is old else self.visit(v))
+            return node
+    return T().visit(root)
+
+
+def _first_walrus(e):
+    """the NamedExpr that is evaluated first in e with only names / constants / attributes evaluated before it, else None"""
+    SIMPLE = (ast.Name, ast.Constant, ast.Attribute)
+
+    def rec(n):
+        # returns ('found', node) | ('blocked', None) | ('clear', None): clear = this subtree only evaluates simple things
+        if isinstance(n, ast.NamedExpr):
+            r = rec(n.value)
+            if r[0] == "found":
+                return r
+            if isinstance(n.target, ast.Name):
+                return ("found", n) if r[0] == "clear" or True else r
+            return ("blocked", None)
+        if isinstance(n, SIMPLE):
+            if isinstance(n, ast.Attribute):
+                return rec(n.value)
+            return ("clear", None)
+        if isinstance(n, ast.BoolOp):
+            return first([n.values[0]], then_blocked=True)
+        if isinstance(n, ast.IfExp):
+            return first([n.test], then_blocked=True)
+        if isinstance(n, ast.Compare):
+            return first([n.left] + n.comparators[:1], then_blocked=len(n.comparators) > 1)
+        if isinstance(n, ast.BinOp):
+            return first([n.left, n.right])
+        if isinstance(n, ast.UnaryOp):
+            return rec(n.operand)
+        if isinstance(n, ast.Subscript):
+            return first([n.value, n.slice])
+        if isinstance(n, ast.Slice):
+            return first([x for x in (n.lower, n.upper, n.step) if x is not None])
+        if isinstance(n, (ast.Tuple, ast.List)):
+            return first(list(n.elts))
+        if isinstance(n, ast.Call):
+            r = first([n.func] + list(n.args) + [k.value for k in n.keywords])
+            return r if r[0] == "found" else ("blocked", None)
+        if isinstance(n, ast.Starred):
+            return rec(n.value)
+        return ("blocked", None)
+
+    def first(parts, then_blocked=False):
+        for q in parts:
+            r = rec(q)
+            if r[0] != "clear":
+                return r
+        return ("blocked", None) if then_blocked else ("clear", None)
+    r = rec(e)
+    return r[1] if r[0] == "found" else None
 
 
 def _store(t):
@@ -382,5 +664,20 @@ def normalize_loops(fn):
 
 def normalize(tree):
     new = _N().visit(tree)
+    if isinstance(new, ast.Module):
+        new.body = _flatten(_hoist_walrus(new.body))
+    elif isinstance(new, (ast.FunctionDef, ast.AsyncFunctionDef)):
+        new.body = _flatten(_hoist_walrus(new.body))
     ast.fix_missing_locations(new)
     return new
+
+
+def _flatten(stmts):
+    """visit_Match may return a statement list for a match whose only case is the wildcard"""
+    out = []
+    for s in stmts:
+        if isinstance(s, list):
+            out.extend(_flatten(s))
+        else:
+            out.append(s)
+    return out
